@@ -262,6 +262,11 @@ class ParametricTransform:
             raise TypeError(
                 f"{type(self).__name__}.link() 'other' must be of the same type, got {type(other).__name__}"
             )
+        if isinstance(self.params, Parameter):
+            # A module cannot be assigned to the name of a registered parameter. The container of
+            # parameters may further be shared with a shallow copy (cf. SpatialTransform.__copy__).
+            self._parameters = self._parameters.copy()
+            del self._parameters["params"]
         self.params = other
         if not hasattr(self, "p"):
             if other.params is None:
